@@ -2538,7 +2538,9 @@ func (e *Env) callTerm(c ssa.CallInstruction) string {
 }
 
 // errCallOf: v is the error result of a call (directly or via Extract); returns the call.
-func errCallOf(v ssa.Value) *ssa.Call {
+func errCallOf(v ssa.Value) *ssa.Call { return errCallOfRec(v, map[*ssa.Phi]bool{}) }
+
+func errCallOfRec(v ssa.Value, seen map[*ssa.Phi]bool) *ssa.Call {
 	switch x := v.(type) {
 	case *ssa.Call:
 		if x.Type().String() == "error" {
@@ -2553,9 +2555,13 @@ func errCallOf(v ssa.Value) *ssa.Call {
 		}
 	case *ssa.Phi:
 		// `err` re-assigned on several paths and tested once: only when all arms come from the same call
+		if seen[x] {
+			return nil // a value carried around a loop is not the result of one call
+		}
+		seen[x] = true
 		var call *ssa.Call
 		for _, ed := range x.Edges {
-			c := errCallOf(ed)
+			c := errCallOfRec(ed, seen)
 			if c == nil || (call != nil && c != call) {
 				return nil
 			}
